@@ -25,6 +25,7 @@ import (
 	"github.com/nspcc-dev/neo-go/pkg/core/state"
 	"github.com/nspcc-dev/neo-go/pkg/core/transaction"
 	"github.com/nspcc-dev/neo-go/pkg/io"
+	"github.com/nspcc-dev/neo-go/pkg/network/payload"
 	"github.com/nspcc-dev/neo-go/pkg/smartcontract/nef"
 	"github.com/nspcc-dev/neo-go/pkg/smartcontract/trigger"
 	"github.com/nspcc-dev/neo-go/pkg/util"
@@ -192,7 +193,7 @@ func c17AllocBudget(t *c17Type, n int) uint64 {
 	switch {
 	case t.text:
 		return 1<<20 + 256*uint64(n)
-	case t.name == "p2pmessage":
+	case strings.HasPrefix(t.name, "p2pmessage"):
 		return 80 << 20
 	case t.name == "appexec" || t.name == "notification" || strings.HasPrefix(t.name, "nep1"):
 		return 1400 << 20 // read from the node's own database only: MaxArraySize elements of a struct type
@@ -238,7 +239,7 @@ func c17DecodeGuarded(co *caseOut, g *c17Guard, t *c17Type, input []byte) (c17WR
 		co.violation("dec", fmt.Sprintf("%s: decoding ends the process (%s)", t.name, st), in, nil)
 		return res, false
 	}
-	if t.name == "p2pmessage" && !res.OK && strings.Contains(res.Err, "lz4: ") && c17ValidCompressedFrame(input) {
+	if strings.HasPrefix(t.name, "p2pmessage") && !res.OK && strings.Contains(res.Err, "lz4: ") && c17ValidCompressedFrame(input) {
 		co.violation("dec", "p2pmessage: a VALID lz4 block is refused by the decompressor", in, map[string]any{"err": res.Err})
 		return res, false
 	}
@@ -412,7 +413,7 @@ func c17Extremes(name string) [][]byte {
 			out = append(out, []byte{0x00, 0}, []byte{0xff, 1}, mk([]byte{0xfd, 0xf4, 1}, 500), mk([]byte{0xfd, 0xf5, 1}, 501)) // the largest accepted, and one more
 		}
 		return out
-	case "headers", "mptdata", "addrlist":
+	case "headers", "headers/sr", "mptdata", "addrlist":
 		return [][]byte{{0}, {0xfd, 0xd1, 0x07}, {0xfd, 0xd0, 0x07}, {0xfd, 0xc9, 0}, {0xfd, 0xc8, 0}, {0xfe, 0xff, 0xff, 0xff, 0xff}, {0xff, 0, 0, 0, 0, 0, 0, 0, 0x80}, {1}, {1, 0}, {2, 1, 5, 0}, {1, 0xfe, 0, 0, 0, 1}, {1, 0xfe, 1, 0, 0, 1, 7}}
 	case "version", "addr":
 		pre := make([]byte, 16)
@@ -487,7 +488,24 @@ func c17Extremes(name string) [][]byte {
 			}
 		}
 		return append(out, [][]byte{{0x4e, 0x45, 0x46, 0x33}, {0x4e, 0x45, 0x46, 0x34}, make([]byte, 80)}...)
-	case "p2pmessage":
+	case "consensus", "consensus/sr":
+		// recovery messages nested in recovery messages (the embedded "PrepareRequest" message may be of any type until
+		// its type is checked, after it was decoded): 20 000 levels; a recovery message whose embedded message is a Commit
+		deep := func(depth int) []byte {
+			var d []byte
+			for i := 0; i < depth; i++ {
+				d = append(d, 0x41, 1, 0, 0, 0, 0, 0, 0, 1)
+			}
+			d = append(d, 0x41, 1, 0, 0, 0, 0, 0, 0, 0, 0, 0, 0)
+			for i := 0; i < depth; i++ {
+				d = append(d, 0, 0)
+			}
+			return c17MustEnc(&payload.Extensible{Category: payload.ConsensusCategory, ValidBlockEnd: 1, Data: d})
+		}
+		wrongType := c17MustEnc(&payload.Extensible{Category: payload.ConsensusCategory, ValidBlockEnd: 1,
+			Data: append(append([]byte{0x41, 1, 0, 0, 0, 0, 0, 0, 1, 0x30, 1, 0, 0, 0, 0, 0}, make([]byte, 64)...), 0, 0)})
+		return [][]byte{deep(1), deep(20000), wrongType}
+	case "p2pmessage", "p2pmessage/sr":
 		return [][]byte{{0, 1, 0}, {0, 0x10, 0}, {0, 0x25, 0}, {0, 0x32, 0}, {0, 0x18, 0}, {0, 0x00, 0}, {1, 1, 0}, {0xff, 1, 0}, {0, 0x99, 1, 0}, {0, 0x2f, 1, 0}, {0, 0x18, 12, 1, 0, 0, 0, 2, 0, 0, 0, 3, 0, 0, 0},
 			{0, 0x18, 13, 1, 0, 0, 0, 2, 0, 0, 0, 3, 0, 0, 0, 9}, {0, 0x18, 11, 1, 0, 0, 0, 2, 0, 0, 0, 3, 0, 0}, {0, 0x18, 0xfd, 12, 0, 1, 0, 0, 0, 2, 0, 0, 0, 3, 0, 0, 0}, {2, 0x19, 12, 1, 0, 0, 0, 2, 0, 0, 0, 3, 0, 0, 0},
 			{0, 0x18, 0xfe, 0, 0, 0, 2}, {0, 0x18, 0xfe, 1, 0, 0, 2}, {0, 0x18, 0xff, 0xff, 0xff, 0xff, 0xff, 0xff, 0xff, 0xff, 0xff}, {1, 0x18, 3, 1, 2, 3}, {1, 0x18, 5, 12, 0, 0, 0, 0},
@@ -519,12 +537,14 @@ var c17Modelled = map[string]string{"tx/bytes": "CTxDec 0", "tx/stream": "CTxDec
 	// extension round: MPT nodes, state root, NEF, P2P payloads (by command byte), the frame
 	"notification": "CNotifDec", "appexec": "CAerDec", "mptnode": "CMptDec", "mptroot": "CMptRootDec", "nef": "CNefDec", "addr": "CNetAddrDec", "p2pmessage": "CFrameDec",
 	"version": "CPayloadDec 0", "addrlist": "CPayloadDec 17", "inventory": "CPayloadDec 39", "getblocks": "CPayloadDec 36", "getblockbyindex": "CPayloadDec 41",
-	"headers": "CPayloadDec 33", "ping": "CPayloadDec 24", "mptinventory": "CPayloadDec 81", "mptdata": "CPayloadDec 82", "extensible": "CPayloadDec 46"}
+	"headers": "CPayloadDec 33", "ping": "CPayloadDec 24", "mptinventory": "CPayloadDec 81", "mptdata": "CPayloadDec 82", "extensible": "CPayloadDec 46",
+	// configuration round: the same decoders with StateRootInHeader
+	"headers/sr": "CPayloadDecSr true 33", "p2pmessage/sr": "CFrameDecSr true"}
 
 // MPTData announces its element count without a maximum (the decoder appends element by element and stops at the end of
 // the input): an announced count above the input length is refused by both sides, but the model would count it in unary
 func c17UnboundedCount(typ string, b []byte) bool {
-	if typ == "p2pmessage" {
+	if strings.HasPrefix(typ, "p2pmessage") {
 		if len(b) < 3 || b[1] != 0x52 || b[0]&1 == 1 {
 			return false
 		}
@@ -814,7 +834,7 @@ func (x *c17Runner) runCase(kind string, in c17Input) {
 				}
 			}
 			term = fmt.Sprintf("%s %s %s", ctor, coqBytes(input), impl)
-		} else if in.Type == "p2pmessage" {
+		} else if strings.HasPrefix(in.Type, "p2pmessage") {
 			dz := c17FrameDecompressed(input)
 			if c17FrameUnmodelled(input) || (len(input) > 0 && input[0]&1 == 1 && dz == "None" && res.OK) {
 				co.hist["dec/"+tag+"(direct only)"]++ // a command outside the frame model, or a decompressed payload too long for a term
@@ -890,7 +910,7 @@ func c17DirectRoundTrip(co *caseOut, in c17Input, v any, fresh func() any) {
 				co.violation("roundtrip", in.Type+": hash changes over a round trip", in, nil)
 			}
 		}
-		if _, isJ := v.(json.Marshaler); isJ && in.Type != "merkleblock" { // MerkleBlock only inherits the JSON methods of its embedded *Header
+		if _, isJ := v.(json.Marshaler); isJ && !strings.HasPrefix(in.Type, "merkleblock") { // MerkleBlock only inherits the JSON methods of its embedded *Header
 			if _, isU := fresh().(json.Unmarshaler); isU {
 				if msg := c17JSONRoundTrip(v, fresh); msg != "" {
 					co.violation("roundtrip", in.Type+": "+msg, in, nil)
@@ -1121,7 +1141,7 @@ func c17RunModelled(x *c17Runner, r *rng, cf *commonFlags) {
 		_ = name
 	}
 	names := []string{"tx/bytes", "tx/stream", "signer", "cond", "attr", "witness", "header", "header/sr", "block", "block/sr", "item",
-		"notification", "appexec", "mptnode", "mptroot", "nef", "version", "addr", "addrlist", "inventory", "getblocks", "getblockbyindex", "headers", "ping", "mptinventory", "mptdata", "extensible", "p2pmessage"}
+		"notification", "appexec", "mptnode", "mptroot", "nef", "version", "addr", "addrlist", "inventory", "getblocks", "getblockbyindex", "headers", "ping", "mptinventory", "mptdata", "extensible", "p2pmessage", "headers/sr", "p2pmessage/sr"}
 	for _, name := range names {
 		t := c17TypeByName(name)
 		var seeds [][]byte
